@@ -1673,7 +1673,20 @@ func (e *Enc) execSlice(fr *Frame, x *ssa.Slice, cur *pathState) {
 			mx = capT
 			e.safety(fr, cur, "slice", x.Pos(), fmt.Sprintf("(and (<= 0 %s) (<= %s %s) (<= %s %s))", lo, lo, hi, hi, capT), x)
 		}
-		res := fmt.Sprintf("(mkslice (s_arr %s) (+ (s_off %s) %s) (- %s %s) (- %s %s))", base.T, base.T, lo, hi, lo, mx, lo)
+		// the new offset gets a name and a bridging axiom sidx(newoff, i) = sidx(oldoff, lo+i), so
+		// that facts quantified over the indices of the original slice are found by E-matching
+		// when elements of the sub-slice are read
+		noff := e.fresh("suboff")
+		e.declare(noff, "Int")
+		ooff := e.fresh("baseoff")
+		e.declare(ooff, "Int")
+		lon := e.fresh("sublo")
+		e.declare(lon, "Int")
+		e.assume(fmt.Sprintf("(and (= %s (s_off %s)) (= %s %s) (= %s (+ %s %s)))", ooff, base.T, lon, lo, noff, ooff, lon))
+		if lo != "0" {
+			e.assume(fmt.Sprintf("(forall ((i Int)) (! (= (sidx %s i) (sidx %s (+ %s i))) :pattern ((sidx %s i))))", noff, ooff, lon, noff))
+		}
+		res := fmt.Sprintf("(mkslice (s_arr %s) %s (- %s %s) (- %s %s))", base.T, noff, hi, lo, mx, lo)
 		e.setReg(fr, x, Val{T: res, S: "Slice"})
 		_ = t
 	case *types.Pointer: // pointer to array
